@@ -10,6 +10,8 @@ CONSTANTS
   Gen = FALSE
   LateFlag = FALSE
   NoRebind = FALSE
+  AllowDv = FALSE
+  ShareBase = FALSE
   NoBreak = FALSE
   NestedOnce = TRUE
   KeepScope = FALSE
